@@ -449,6 +449,82 @@ func c17r2(c *Ctx) {
 	resultShapeRule(c, "C17-R2")
 }
 
+// knownNilAt: block b is dominated by the nil side of a nil test of v (or v is the nil constant).
+func knownNilAt(v ssa.Value, b *ssa.BasicBlock) bool {
+	if isNilConst(v) {
+		return true
+	}
+	refs := v.Referrers()
+	if refs == nil {
+		return false
+	}
+	for _, u := range *refs {
+		bo, ok := u.(*ssa.BinOp)
+		if !ok || !(bo.Op == token.NEQ || bo.Op == token.EQL) || !isNilConst(bo.Y) || bo.Referrers() == nil {
+			continue
+		}
+		for _, w := range *bo.Referrers() {
+			iff, ok := w.(*ssa.If)
+			if !ok || len(iff.Block().Succs) != 2 {
+				continue
+			}
+			t := iff.Block().Succs[1]
+			if bo.Op == token.EQL {
+				t = iff.Block().Succs[0]
+			}
+			if len(t.Preds) == 1 && t.Dominates(b) {
+				return true
+			}
+		}
+	}
+	return false
+}
+
+// mergedShape follows an (output, error) pair backwards through the φ's that merge it: "" if on every incoming path the
+// pair is (nil, _) with a non-nil-constant error or (output, error known nil); a description of the offending path
+// otherwise; "?" if the structure is not understood.
+func mergedShape(out, er ssa.Value, b *ssa.BasicBlock, depth int) string {
+	if depth > 8 {
+		return "?"
+	}
+	po, isPO := out.(*ssa.Phi)
+	pe, isPE := er.(*ssa.Phi)
+	switch {
+	case isPO && isPE && po.Block() == pe.Block():
+		for k := range po.Edges {
+			if w := mergedShape(po.Edges[k], pe.Edges[k], po.Block().Preds[k], depth+1); w != "" {
+				return w
+			}
+		}
+		return ""
+	case isPO && (!isPE || po.Block() != pe.Block()) && (!isPE || pe.Block().Dominates(po.Block())):
+		for k := range po.Edges {
+			if w := mergedShape(po.Edges[k], er, po.Block().Preds[k], depth+1); w != "" {
+				return w
+			}
+		}
+		return ""
+	case isPE:
+		for k := range pe.Edges {
+			if w := mergedShape(out, pe.Edges[k], pe.Block().Preds[k], depth+1); w != "" {
+				return w
+			}
+		}
+		return ""
+	}
+	switch {
+	case isNilConst(out) && isNilConst(er):
+		return "a path returns (nil, nil): neither an output nor an error"
+	case isNilConst(out):
+		return ""
+	case knownNilAt(er, b):
+		return ""
+	case definitelyError(er, b, map[ssa.Value]bool{}):
+		return "a path returns an output together with an error"
+	}
+	return "a path returns an output while the error may be non-nil"
+}
+
 func resultShapeRule(c *Ctx, rule string) {
 	c.Rule(rule, "entry points never return an output together with an error", 100)
 	for _, fn := range c.P.EntryPoints() {
@@ -481,6 +557,14 @@ func resultShapeRule(c *Ctx, rule string) {
 							c.OK(rule, FuncName(g), construct, c.P.InstrPos(r), "tail call: shape checked in the callee")
 							continue
 						}
+					}
+					// single exit `return out, err` after nested branches: follow the two merged values edge by edge
+					if why := mergedShape(out, er, r.Block(), 0); why == "" {
+						c.OK(rule, FuncName(g), construct, c.P.InstrPos(r), "single exit: on every incoming path the pair is (nil, error) or (output, error known nil)")
+						continue
+					} else if why != "?" {
+						c.FailX(Oblig{Rule: rule, Func: FuncName(g), Construct: construct, Pos: c.P.InstrPos(r), Kind: "violation", Detail: why, Expected: "(nil, err) or (output, nil)"})
+						continue
 					}
 					c.FailX(Oblig{Rule: rule, Func: FuncName(g), Construct: construct, Pos: c.P.InstrPos(r), Kind: "violation",
 						Detail: "returns a possibly non-nil output together with a possibly non-nil error", Expected: "(nil, err) or (output, nil)"})
